@@ -64,8 +64,13 @@ def run_runtime(rep, pid, premise, theorem_apps, configs, search=None, search_wh
         rep.nontrivial.add((c["cfg"], j))
         if k % 23 == 0:
             rep.sample({"config": c["label"], "attr": c["attr"], "model": j, premise: r["wf"]})
-        if ok and per_model_check:
-            ok = per_model_check(rep, c, j, r)
+        if per_model_check:
+            ok2 = per_model_check(rep, c, j, r)
+            ok = ok2 if (ok or isinstance(ok2, dict)) else ok
+            if isinstance(ok, dict):
+                # the property's own oracle evaluated on the real expansion fails: that input is the failing input
+                rep.violation("inst_%s_%d" % (c["label"], j), dict(ok, attr=c["attr"], item=c["item"], kind=c["kind"], model_index=j), found=True)
+                continue
         if ok:
             good.append(k)
             continue
@@ -84,3 +89,43 @@ def run_runtime(rep, pid, premise, theorem_apps, configs, search=None, search_wh
                         "user methods are deterministic functions of (state, arguments) - section variable `sem`",
                         "impl blocks inside the documented envelope (no typed self receivers, no cfg attributes on methods)"]
     return owners, res
+
+
+def impl_side(rep, pid, runs, judge):
+    """runtime correspondence on the real generated code (harness/probe): runs = list of argument lists,
+    judge(args, observation) -> (problems, known). Any problem is a violation with the scenario as replay."""
+    import probe
+    try:
+        probe.build()
+    except probe.ProbeCompileError as e:
+        rep.notes.append("probe harness does not compile against the current tree (generated code rejected by rustc): runtime correspondence skipped; see C06")
+        rep.extra["probe_compile_error"] = str(e)[-1500:]
+        return False
+    res = probe.run_many(runs)
+    known_seen = []
+    for a, d in zip(runs, res):
+        rep.evaluations += 1
+        out = judge(a, d)
+        problems, known = out if isinstance(out, tuple) else (out, [])
+        harness = [x for x in problems if x.startswith("harness:")]
+        real = [x for x in problems if not x.startswith("harness:")]
+        if harness and not real:
+            # never let a harness hiccup count against the code: retry once
+            d = probe.run_one(a)
+            out = judge(a, d)
+            problems, known = out if isinstance(out, tuple) else (out, [])
+            real = [x for x in problems if not x.startswith("harness:")]
+            if not real and problems:
+                rep.notes.append("probe scenario %s inconclusive: %s" % (a, problems))
+                continue
+        rep.traces += 1
+        rep.oblige(not real)
+        rep.count("probe_scenario", "%s/%s" % (a[0], a[1]))
+        known_seen += known
+        if real:
+            rep.violation("probe_" + "_".join(str(x) for x in a), {
+                "what": real, "how_to_replay": "cd /verif/harness/probe && CARGO_TARGET_DIR=/verif/.cache/probe_target cargo build --offline && /verif/.cache/probe_target/debug/probe " + " ".join(str(x) for x in a),
+                "observation": d}, found=True)
+        elif len(rep.samples) < 9:
+            rep.sample({"probe": " ".join(str(x) for x in a), "observation": {k: v for k, v in d.items() if k not in ("log", "returns")}})
+    return known_seen
